@@ -19,6 +19,15 @@ Layers run here (DESIGN.md section 1.2 and "C20"):
         effect is visible in the output shows the marker of the winning layer and no other marker, and the
         output equals the output for the flattened (single-layer) configuration the oracle computed.
 
+  * expand model (coq/proofs/ConfigExpand.v, theorems C20_expand_uses_merged / C20_expand_layers_congruent): a Gallina
+    model of emmet.expand(abbr, config, global_config) = config_init, then decoding of the merged dictionaries into the
+    configuration records of the pipeline models, then the markup / stylesheet pipeline model.  It is executed on every
+    case that goes through expand: resolved type markup (or any non-stylesheet name) through the extracted model
+    (coq/run/CfgexpandRun.v; every such case), resolved type stylesheet inside Coq (coq/run/CfgexpandShow.v; the
+    stylesheet pipeline model uses floats) -- every case in the thorough tier, a seeded sample covering every
+    (syntax name, section) in the quick tier; compared: the output string, resp. the error class.  The values of the
+    built-in tables come from coq/gen/GenConfigVals.v, regenerated from emmet/config.py on every run.
+
 THE TABLE (exhaustive, `exhaustive: true`): for each abbreviation type, every syntax name of
   known    SYNTAXES[type]
   cross    the syntaxes of the other type (not syntaxes of this type; table keys like 'sass' apply as written)
@@ -1028,6 +1037,12 @@ def run(ctx):
         run_cases(ctx, tb, model, rnd, 'random', pool, xmodel)
     if xmodel is not None:
         coq_expand_tie(ctx, thorough)
+    ctx.cov['additional_theorems'] = [
+        'proofs/ConfigExpandCss.v expand_model_layers_congruent: the expand model with the REAL stylesheet pipeline model in '
+        'its stylesheet branch gives equal results for layer stacks with equal effective lookups (instance of '
+        'C20_expand_layers_congruent; compiled with the build; depends on the kernel PrimFloat/Uint63 primitives only)',
+        'proofs/ConfigExpandCss.v expand_model_markup_branch: for a resolved type other than stylesheet the extracted '
+        'markup half computes the full expand model']
     if tb.modified_strict():
         ctx.property_failure('purity:tables-after-run', 'purity: the built-in tables differ (type-strict comparison) after the run',
                              {'component': 'config', 'case': None, 'why': ['strict snapshot differs']})
